@@ -11,6 +11,8 @@ CONSTANTS
   Addrs = {"4096"}
   Grows = {}
   Lates = TRUE
+  AddAligns = {}
+  OnlyTiled = FALSE
   NopKinds = {"1"}
   VariantSet = "geo"
   Rotate = 2
